@@ -331,7 +331,8 @@ func genC08(r *Rng, tier string) []Case {
 	for i := 0; i < 300; i++ {
 		u := []byte(randURL(r))
 		if r.Bool() {
-			alt := []byte(":/?#%@[] ~\x00\x7fAz09.-+"); u[r.Intn(len(u))] = alt[r.Intn(len(alt))]
+			alt := []byte(":/?#%@[] ~\x00\x7fAz09.-+")
+			u[r.Intn(len(u))] = alt[r.Intn(len(alt))]
 		}
 		cs = append(cs, Case{"url", []Sx{B(u)}})
 	}
